@@ -160,3 +160,20 @@ def c15_batch(tier="quick", seed=0):
                 bad = (order, i, got, base[i])
     return [ob("C15.bounded.batch-order", bad is None, "B", f"{len(progs)} programs x {rounds} shuffled orders" if bad is None else f"program {bad[1]} gives {bad[2]} instead of {bad[3]} in order {bad[0][:8]}...",
                witness=(progs[bad[1]] if bad else None), confirmed=True if bad else None, domain=len(progs) * rounds)]
+
+
+@groups.group(id="C15.struct.process-state", prop="C15", kind="K3", functions=["microjs (module-level state)"])
+def c15_process_state(tier="quick", seed=0):
+    """nothing survives in the process from one context (or evaluation) to the next: no module-level or class-level
+    mutable container is ever mutated, no `global` statement, no memoising decorator (the analysis of C12, which
+    a result depending on earlier contexts in the same process would have to get past)"""
+    from contracts.C12_context import c12_struct
+    out = []
+    for o in c12_struct(tier, seed):
+        if any(k in o["id"] for k in (".module-state.", ".class-state.", ".global-stmt.", ".cache", ".decorator")):
+            o = dict(o)
+            o["id"] = o["id"].replace("C12.", "C15.", 1)
+            o["finding_key"] = o["id"]
+            out.append(o)
+    out.append(ob("C15.struct.process-state.inventory", len(out) > 0, "K3", f"{len(out)} module/class-level bindings inspected"))
+    return out
